@@ -189,7 +189,7 @@ def step (line : String) : String :=
     | some b =>
       match decodePubKey b with
       | some v => "ok " ++ String.intercalate " " (v.map toString)
-      | none => "panic"
+      | none => "err"      -- shorter than 129 bytes (the point at infinity marshals to ONE byte): an error since /repo ae5b22f
     | none => "bad-op"
   | _ => "bad-op"
 
